@@ -57,3 +57,39 @@ func c09LockedStore(c *Ctx, rig *c09Rig, file string, k c09Cfg, toks c09Toks) {
 		}
 	}
 }
+
+var c09RotationDone bool
+
+// c09Rotation: a second lifetime of the service on the SAME database with a DIFFERENT configured admin token (the
+// operator rotated http.auth_token and restarted). The old admin token was never issued by the token endpoint and is
+// no longer the configured one: no route under the authenticated prefix may let it through.
+func c09Rotation(c *Ctx, k c09Cfg, file, oldAdmin string) {
+	if c09RotationDone || !k.auth || c.Replay != "" {
+		return
+	}
+	c09RotationDone = true
+	newAdmin := "adm2" + oldAdmin[4:]
+	if newAdmin == oldAdmin {
+		newAdmin = oldAdmin + "2"
+	}
+	rig2, err := c09NewRig(lib.StackOpts{File: file, UseAuth: true, AdminToken: newAdmin, Profiling: k.prof}, false)
+	if err != nil {
+		c.R.Notes = append(c.R.Notes, "rotation probe: "+err.Error())
+		return
+	}
+	defer rig2.Close()
+	type probe struct{ method, path string }
+	for _, p := range []probe{{"GET", c09Prefix + "/chain/tip/longest"}, {"GET", c09Prefix + "/access"}, {"GET", c09Prefix + "/network/peer"}, {"POST", c09Prefix + "/access"}, {"GET", c09Prefix + "/webhook?url=x"}} {
+		r := c09Do(rig2, p.method, p.path, "", true, "Bearer "+oldAdmin)
+		c.R.OracleChecked++
+		c.R.Count("request with the previous admin token after rotation + restart on the same database", 1)
+		if r.Status != 401 {
+			c.R.Fail(lib.Failure{Case: "admin token rotation " + p.method + " " + p.path, Ops: []string{fmt.Sprintf("# c09 %s: service restarted on the same database with another http.auth_token; %s %s with the PREVIOUS admin token", k.bits(), p.method, p.path)},
+				What:     "the previous admin token (never issued by the token endpoint, no longer configured) is still let through after the configured admin token was changed",
+				Expected: "401", Observed: fmt.Sprintf("%d %s", r.Status, r.Body), Signature: "c09-previous-admin-token-survives-rotation"})
+		}
+	}
+	if r := c09Do(rig2, "GET", c09Prefix+"/access", "", true, "Bearer "+newAdmin); r.Status != 200 {
+		c.R.Fail(lib.Failure{Case: "admin token rotation (new token)", Ops: []string{"# the newly configured admin token on GET /api/v1/access"}, What: "the newly configured admin token is refused", Expected: "200", Observed: fmt.Sprint(r.Status), Signature: "c09-new-admin-token-refused"})
+	}
+}
